@@ -133,6 +133,18 @@ type prefixUse struct {
 // discriminatorEnv builds an Env in which StreamType-typed variables have value st and bool `web` has value web.
 func discriminatorEnv(p *core.Program, info *types.Info, st int64, web bool) astx.Env {
 	stT := p.Named(core.ConnectPath, "StreamType")
+	boolParams := map[types.Object]bool{}
+	for _, fd := range p.AllFuncDecls(p.Connect) {
+		for _, f := range fd.Type.Params.List {
+			for _, n := range f.Names {
+				if obj := info.Defs[n]; obj != nil {
+					if b, ok := obj.Type().Underlying().(*types.Basic); ok && b.Kind() == types.Bool {
+						boolParams[obj] = true
+					}
+				}
+			}
+		}
+	}
 	return astx.Env{
 		Int: func(e ast.Expr) (int64, bool) {
 			if tv, ok := info.Types[e]; ok && tv.Value == nil && stT != nil && types.Identical(tv.Type, stT) {
@@ -145,6 +157,10 @@ func discriminatorEnv(p *core.Program, info *types.Info, st int64, web bool) ast
 			switch x := e.(type) {
 			case *ast.Ident:
 				if x.Name == "web" {
+					return web, true
+				}
+				// the flag handed to a helper as its bool parameter, whatever the helper calls it
+				if obj := info.Uses[x]; obj != nil && boolParams[obj] {
 					return web, true
 				}
 			case *ast.SelectorExpr:
